@@ -9,6 +9,7 @@ import (
 	"strconv"
 	"strings"
 	"testing"
+	"time"
 
 	"github.com/lidofinance/dc4bc/client/types"
 	dpf "github.com/lidofinance/dc4bc/fsm/state_machines/dkg_proposal_fsm"
@@ -104,9 +105,38 @@ func runC12World(w *World, tier string, crashAt []int, out *c12Out) (bool, inter
 	if len(crashAt) > 0 {
 		w.CrashAirAt = crashAt[0]
 	}
+	// clock fault: one hot node's clock is set back by hours between two steps
+	// of the ceremony, so the operations it issues from then on carry earlier
+	// timestamps than the ones before (the machine logs them as they come)
+	backNode, backFrom, backBy := -1, "", time.Duration(0)
+	if w.Tape.Bool(1, 3, "clockSetBack") {
+		backNode = w.Tape.Choose(n, "backNode")
+		backFrom = []string{string(dpf.StateDkgDealsAwaitConfirmations), string(dpf.StateDkgResponsesAwaitConfirmations), string(dpf.StateDkgMasterKeyAwaitConfirmations)}[w.Tape.Choose(3, "backFrom")]
+		backBy = []time.Duration{90 * time.Minute, 5 * time.Hour, 49 * time.Hour}[w.Tape.Choose(3, "backBy")]
+		w.Stats.Fault("hot-node-clock-set-back")
+	}
+	stepRank := map[string]int{string(dpf.StateDkgCommitsAwaitConfirmations): 1, string(dpf.StateDkgDealsAwaitConfirmations): 2, string(dpf.StateDkgResponsesAwaitConfirmations): 3, string(dpf.StateDkgMasterKeyAwaitConfirmations): 4, "state_signing_await_partial_signs": 5}
 	curOp := map[int]string{}
 	for i, op := range c.Ops {
 		i, op := i, op
+		if i == backNode {
+			op.AlterOp = func(o *types.Operation, opJSON []byte) []byte {
+				if stepRank[string(o.Type)] < stepRank[backFrom] || stepRank[string(o.Type)] == 0 {
+					return opJSON
+				}
+				var m map[string]json.RawMessage
+				var ts time.Time
+				if json.Unmarshal(opJSON, &m) != nil || json.Unmarshal(m["CreatedAt"], &ts) != nil {
+					return opJSON
+				}
+				m["CreatedAt"], _ = json.Marshal(ts.Add(-backBy))
+				out, err := json.Marshal(m)
+				if err != nil {
+					return opJSON
+				}
+				return out
+			}
+		}
 		op.PreAir = func(o *types.Operation, opJSON []byte) {
 			curOp[i] = string(o.Type)
 			out.fed[i] = append(out.fed[i], append([]byte(nil), opJSON...))
